@@ -84,3 +84,11 @@ claim("C08", "DESIGN.md 5/C08",
       "must refer to the same logs in file-name order; --reverse / --extension are symbolic in the ordering harness (all "
       "three modes), getFileList is executed on symbolic names, and every --list field is compared with the full decode "
       "while one header / SRC field at a time is symbolic.")
+
+claim("C09", "DESIGN.md 5/C09",
+      "The real main() is executed, per path, on a directory without and with one extra file (and on the extra file "
+      "alone) for -l, -a, -n, --plid, --src, -j, -a --hex and -l --reverse; the extra file's sorted position, its "
+      "content (random bytes, truncation offset, corrupted offset and replacement byte in the PH/UH ids, SRC header, SRC "
+      "word count, callout header and PCE identity) are symbolic. Where the mode cannot decode the extra file, stdout "
+      "(compared through the remembered JSON objects), written files and exit status must equal the run without it; in "
+      "every case stdout must be one well-framed document and the exit status 0.")
